@@ -398,13 +398,17 @@ def guarded_render(cfg, src, seconds=20):
     class _Timeout(BaseException):
         pass
 
+    armed = [True]
+
     def on_alarm(signum, frame):
-        raise _Timeout()
+        if armed[0]:                # never raise outside the guarded region (the timer keeps firing)
+            raise _Timeout()
     try:
-        old = signal.signal(signal.SIGALRM, on_alarm)
+        # CPU time of this process, not wall time: machine load must not turn a slow render into a verdict
+        old = signal.signal(signal.SIGVTALRM, on_alarm)
     except ValueError:          # not in the main thread
         return render(cfg, src)
-    signal.setitimer(signal.ITIMER_REAL, seconds, 0.2)      # keeps firing: a bare {% except %} may swallow one
+    signal.setitimer(signal.ITIMER_VIRTUAL, seconds, 0.2)      # keeps firing: a bare {% except %} may swallow one
     import resource
     limit = resource.getrlimit(resource.RLIMIT_AS)
     try:
@@ -413,14 +417,18 @@ def guarded_render(cfg, src, seconds=20):
     except Exception:
         pass
     try:
-        return render(cfg, src)
+        try:
+            return render(cfg, src)
+        finally:
+            armed[0] = False
     except _Timeout:
         return {"kind": "timeout"}
     except MemoryError:
         return {"kind": "exc", "mro": ["MemoryError", "Exception"], "phase": "generate"}
     finally:
-        signal.setitimer(signal.ITIMER_REAL, 0)
-        signal.signal(signal.SIGALRM, old)
+        armed[0] = False
+        signal.setitimer(signal.ITIMER_VIRTUAL, 0)
+        signal.signal(signal.SIGVTALRM, old)
         try:
             resource.setrlimit(resource.RLIMIT_AS, limit)      # children (TLC) must not inherit the cap
         except Exception:
